@@ -15,7 +15,7 @@ checks = {
  "C03": ("exploration", "client-boundary history checked by a white-box oracle and by porcupine",
          "Histories of concurrent submissions recorded at the API boundary with one logical clock; oracle A checks bytes/index/term/result, at-most-once and real-time order against the applied sequence; oracle B (porcupine v1.3.0, nondeterministic counter model) checks the history alone.",
          "unique payloads; failed/timeout/unknown operations stay open to the end of the history", "5/C03"),
- "C04": ("exploration", "disk-log shadows checked at every commit/apply/ack point; durability across crash-fork restarts",
+ "C04": ("exploration", "disk-log shadows checked at every commit/apply/ack point; durability across crash-fork restarts; fsync discipline from strace",
          "At the first commit evidence / first Apply of an index, a majority of the static voters must hold the entry in the shadow of their on-disk log (updated only after the real fsync returned); reopened logs must contain every completed write; later leaders/applies are checked by C01/C07 oracles under crash-all/restart-majority schedules.",
          "crash = process death (completed writes persist); power-loss semantics only via the anchored fsyncs", "5/C04"),
  "C05": ("exploration", "stale-read oracle over client histories (sequence numbers only) + porcupine",
@@ -30,6 +30,12 @@ checks = {
  "C08": ("exploration", "monitor on StateStorage writes, RequestVote replies and state samples across incarnations",
          "Persisted terms and reply/status terms never decrease per node id across crash-fork restarts; at most one candidate per (node, term) over all SetState calls and granted replies; grants only to up-to-date logs; prevote handlers cause no SetState; granted vote is on disk before the reply exists; reopened state equals last completed write.",
          "same as C01", "5/C08"),
+ "C12": ("fault_enumeration", "strace-recorded syscall replay: crash image at every syscall boundary and write byte-prefix, reopened with the real code against a reference model",
+         "Enumerates, for seed-determined API sequences on the real persistentLog, every crash point at syscall and byte granularity (process-death model), and checks reopen + read-back against a reference list model plus continued operation. Exhaustive over the crash points of each executed sequence, sampled over sequences.",
+         "process death only (completed writes persist); strace log is faithful (self-validated per trace)", "5/C12"),
+ "C13": ("fault_enumeration", "strace-recorded syscall replay over SetState and snapshot-storage sequences; NewRaft over every image",
+         "Every crash point (syscall boundary / write prefix) of seed-determined SetState and snapshot create/write/close/discard sequences; storages and NewRaft must construct first time, values must be last-completed or in-flight, snapshots never partial.",
+         "process death only; rename is atomic", "5/C13"),
 }
 
 not_yet = {
